@@ -39,10 +39,11 @@ def props_of(c):
 
 
 def _worker(args):
-    key, timeout_s = args
+    key, timeout_s = args[0], args[1]
+    wall = args[2] if len(args) > 2 else None
     reg = registry()
     try:
-        return verify.verify_function(reg, key, timeout_s)
+        return verify.verify_function(reg, key, timeout_s, wall_budget_s=wall)
     except BaseException as e:  # noqa: BLE001
         return {"key": key, "error": f"crash: {e!r}", "traceback": traceback.format_exc(), "crash": True,
                 "obligations": [], "paths": 0, "fingerprint": None}
@@ -214,6 +215,11 @@ def run_property(prop, tier="quick", seed=0, jobs=None, rebaseline=False, only=N
     meta = props_mod.PROPS[prop]
     timeout_s = 10.0 if tier == "quick" else 60.0
     keys = [k for k, c in reg.contracts.items() if prop in props_of(c) and not c.trusted and not c.inline and not k.startswith("model:")]
+    if tier != "thorough":
+        skipped_slow = [k for k in keys if reg.contracts[k].tier == "thorough"]
+        keys = [k for k in keys if reg.contracts[k].tier != "thorough"]
+    else:
+        skipped_slow = []
     if only:
         keys = [k for k in keys if only in k]
     statics = []
@@ -226,8 +232,8 @@ def run_property(prop, tier="quick", seed=0, jobs=None, rebaseline=False, only=N
         if prop in [x.strip() for x in lem["prop"].split(",")] and (not only or only in lem["name"]):
             statics.append(("lemma_spec", i, timeout_s))
     jobs = jobs or min(16, os.cpu_count() or 4)
-    per_fn_budget = 150.0 if tier == "quick" else 900.0
-    tasks = [("fn", (k, timeout_s), k) for k in keys] + [("static", st, f"{st[0]}#{st[1]}") for st in statics]
+    per_fn_budget = 240.0 if tier == "quick" else 1200.0
+    tasks = [("fn", (k, timeout_s, per_fn_budget - 30), k) for k in keys] + [("static", st, f"{st[0]}#{st[1]}") for st in statics]
     results = run_tasks(tasks, jobs, per_fn_budget)
 
     crashes = [r for r in results if r.get("crash")]
@@ -273,6 +279,8 @@ def run_property(prop, tier="quick", seed=0, jobs=None, rebaseline=False, only=N
     for name in baseline:
         if only:
             break
+        if any(name.startswith(k + "/") for k in skipped_slow):
+            continue
         if name not in g:
             undecided.append((name, "obligation of the baseline was not generated on this tree"))
     for r in notgen:
